@@ -40,6 +40,7 @@ type vfc29Env struct {
 	opts    vfcrigOpts
 	reader  *vfcrigReader
 	orig    map[string]bool // original samples (set)
+	origIDs map[string]bool // ULIDs of the blocks present before the compactor started
 	scratch string
 }
 
@@ -136,7 +137,16 @@ func (e *vfc29Env) check(ctx context.Context, core *vfcfbCore, st *vfc29RunState
 			"view": v.name, "after_operation": after, "selected_blocks": ids, "missing_samples": missing, "example_missing": ex, "invented_samples": invented, "example_invented": exInv,
 			"operations": vfcfbFmtOps(core.ops(), 400)}
 		if missing > 0 {
-			e.r.Violation(e.c, fmt.Sprintf("sample-not-served:%s:%s:after-%s/%s", v.name, phase, after.Kind, after.Class),
+			what := after.Kind + "/" + after.Class
+			if after.Class == "deletion-mark" && after.Kind == "upload" {
+				// whose deletion mark made the samples disappear: a block that existed from the start, or a block the compactor produced
+				if i := strings.IndexByte(after.Name, '/'); i > 0 && e.origIDs[after.Name[:i]] {
+					what += "-of-original-block"
+				} else {
+					what += "-of-compaction-result"
+				}
+			}
+			e.r.Violation(e.c, fmt.Sprintf("sample-not-served:%s:%s:after-%s", v.name, phase, what),
 				fmt.Sprintf("%d original samples (e.g. %s) are served by no complete selected block in %s right after %s %s (%s, crash point %d)", missing, ex, v.name, after.Kind, after.Name, phase, crashAt), wit)
 		} else {
 			e.r.Violation(e.c, fmt.Sprintf("invented-sample:%s:%s", v.name, phase),
@@ -233,7 +243,7 @@ func TestVF_C29(t *testing.T) {
 		}
 		rng := r.Rand(c)
 		set := vfcrigGenSet(rng, c)
-		opts := vfcrigOpts{DeleteDelay: vfkit.Pick(rng, []time.Duration{0, 48 * time.Hour}), Lister: vfkit.Pick(rng, []string{"concurrent", "recursive"})}
+		opts := vfcrigOpts{DeleteDelay: []time.Duration{48 * time.Hour, 0}[(c+c/9)%2], Lister: vfkit.Pick(rng, []string{"concurrent", "recursive"})} // every kind of set meets both delays over the 9-cycle of kinds
 		core0 := vfcfbNew()
 		tSet := time.Now()
 		vfcrigBuild(ctx, t, core0.view("setup", false), set)
@@ -251,7 +261,9 @@ func TestVF_C29(t *testing.T) {
 			t.Fatalf("rig: %v", err)
 		}
 		byTS := map[string]string{}
+		env.origIDs = map[string]bool{}
 		for _, m := range metas {
+			env.origIDs[m.ULID.String()] = true
 			ss, err := env.reader.blockSamples(ctx, core0.mem, m)
 			if err != nil {
 				t.Fatalf("rig: read source block: %v", err)
